@@ -190,3 +190,11 @@ pub fn tree_node<H: HashChain>(
     let key = LmsPrivateKey::new(seed_of::<H>(seed)?, *id, 0, lmots, lms);
     Some(get_tree_element(index, &key, &mut None))
 }
+
+/// `fast_verify_eval` (feature `fast_verify`): total number of chain iterations the optimiser attributes to `digest`.
+#[cfg(feature = "fast_verify")]
+pub fn fast_verify_eval<H: HashChain>(lmots_type: u32, digest: &[u8]) -> Option<u16> {
+    let p = LmotsAlgorithm::get_from_type::<H>(lmots_type)?;
+    let cached = p.fast_verify_eval_init();
+    Some(p.fast_verify_eval(digest, &cached))
+}
